@@ -206,6 +206,9 @@ func verifC31Gen(rt *rapid.T, stopBias bool) verifC31Params {
 	roll := rapid.IntRange(0, 9).Draw(rt, "stopRoll")
 	if (stopBias && roll < 8) || (!stopBias && roll < 2) {
 		p.StopAt = rapid.IntRange(0, total).Draw(rt, "stopAt")
+		if stopBias && total > 1 {
+			p.StopAt = rapid.IntRange(1, total-1).Draw(rt, "stopAtMid")
+		}
 		if stopBias {
 			p.StopMode = rapid.IntRange(0, 2).Draw(rt, "stopMode")
 		}
@@ -527,6 +530,12 @@ func verifC31Run(p verifC31Params, gate bool) *verifC31History {
 	var stopOnce sync.Once
 	var wg sync.WaitGroup
 	busy := func() bool { return w.inflight.Load() > 0 }
+	stopAt := p.StopAt
+	if w.gate != nil && len(p.Plans) > 0 {
+		// with blocked ports only the first enqueue of every producer is certain to start
+		stopAt = p.StopAt % len(p.Plans)
+		h.Params.StopAt = stopAt
+	}
 	earlyStop := func() {
 		stopOnce.Do(func() {
 			wg.Add(1)
@@ -537,6 +546,12 @@ func verifC31Run(p verifC31Params, gate bool) *verifC31History {
 				switch p.StopMode {
 				case 1:
 					rec.Kind = "quiesce_expired"
+					if w.gate != nil && stopAt > 0 {
+						// scheduling aid only: let an accepted plan reach the (blocked) presence port
+						for i := 0; i < 300 && !busy(); i++ {
+							time.Sleep(100 * time.Microsecond)
+						}
+					}
 					ctx, cancel := context.WithDeadline(context.Background(), time.Now().Add(-time.Second))
 					err = r.Quiesce(ctx)
 					cancel()
@@ -591,7 +606,7 @@ func verifC31Run(p verifC31Params, gate bool) *verifC31History {
 			defer wg.Done()
 			for i := range p.Plans[ch] {
 				pl := &p.Plans[ch][i]
-				if int(enqCounter.Add(1)-1) == p.StopAt {
+				if int(enqCounter.Add(1)-1) == stopAt {
 					earlyStop()
 				}
 				verifC31Sleep(pl.PauseUS)
